@@ -1255,7 +1255,9 @@ func (c *control) dirR(colon, at bool, params []any) {
 				words = append(words, teen[d-'0'])
 			default:
 				zero = false
-				words = append(words, one[d-'0'])
+				if d != '0' {
+					words = append(words, one[d-'0'])
+				}
 				words = append(words, cardinalTen[d10-'0'-2])
 			}
 			one = cardinalOne
